@@ -541,6 +541,23 @@ def r4(ctx):
     kws = dict((k.arg, U(resolve_local(k.value, defs, c.lineno)).replace(' ', '')) for k in c.keywords)
     epn = kws.get('endpoint_name')
     ok = args == ['%s.netloc' % u, '%s.path' % u] and epn in ('%s.fragmentif%s.fragmentelseNone' % (u, u), '%s.fragmentorNone' % u) and len(kws) == 1
+    if not ok and len(c.args) == 2 and len(kws) == 1 and 'endpoint_name' in kws:
+      # the same choice made by an if statement: judged per path
+      ok = True
+      n_p = 0
+      for ev, ex in enum_paths(ctx, z):
+        r_ = [i for i, e in enumerate(ev) if e.kind == 'ret']
+        if not r_:
+          continue
+        n_p += 1
+        i_ = r_[-1]
+        a_ = [resolved_text(ev, i_, x) for x in c.args]
+        v_ = resolved_text(ev, i_, [k for k in c.keywords if k.arg == 'endpoint_name'][0].value)
+        fs_ = FACTS(ev)
+        frag = '%s.fragment' % u
+        want = [frag] if (frag, True) in fs_ else ['None'] if (frag, False) in fs_ else []
+        ok = ok and a_ == ['%s.netloc' % u, '%s.path' % u] and (v_ in want or v_ in ('%sif%selseNone' % (frag, frag), '%sorNone' % frag))
+      ok = ok and n_p >= 1
   ctx.ob('C20.R4', z, 'ZooKeeperServerSetProvider(netloc, path, endpoint_name=fragment or None)', ok, 'returns %s' % [U(r) for r in rets],
          'a zk:// URI yields a provider for the given hosts, path and optional endpoint name')
   sp = prog.func('scales/loadbalancer/serverset.py', 'StaticServerSetProvider.GetServers')
